@@ -6,6 +6,7 @@ import Upf.Proofs.BessAddDel
 import Upf.Proofs.BessImage
 import Upf.Proofs.History
 import Upf.Proofs.ModMix
+import Upf.Proofs.ModRem
 import Upf.Proofs.GenEqAgent
 /-!
 # C03 — BESS tables are exactly the image of the live sessions' rules
@@ -188,6 +189,25 @@ theorem image_after_mixed_modification (cfg : Cfg) (w : World) (a : Nat) (r : Mo
     (hI : Inv cfg w) (hW : FarWf w) (henv : EnvOK cfg w [Ev.modAdd a (rAdd r), Ev.modFar a (rUpd r), Ev.modRem a (rRem r)]) :
     Inv cfg (modify cfg w a r).world := by
   rw [hm.world]; exact (inv_run cfg _ w hI hW henv).1
+
+/-- **every FAR has one entry with what the control plane sent**: along every history in the envelope, for every stored session whose rules
+have pairwise different keys, farLookup holds under the FAR's key (FAR ID, SEID) exactly the entry `addFAR` builds from the stored rule:
+action (`setActionValue`), tunnel type, addresses, TEID and port -/
+theorem stored_far_is_programmed (cfg : Cfg) (w : World) (hI : Inv cfg w) (s : Session) (hs : s ∈ allSessions w) (hnd : SelfNodup cfg s)
+    (f : Far) (hf : f ∈ s.fars) : (w.tables.tab .far).get (farEntry f).1 = some (farEntry f).2 := by
+  have hm : farEntry f ∈ s.kv cfg .far := List.mem_map_of_mem hf
+  exact (hI.img .far _ _).mpr ⟨s, hs, (lastVal_of_nodup _ (hnd .far) _ _).mpr hm⟩
+
+/-- … and every entry the PDR's port product yields lies in pdrLookup with the PDR's session, FAR, first QER, decapsulation flag and
+priority `MaxUint32 − precedence` -/
+theorem stored_pdr_is_programmed (cfg : Cfg) (w : World) (hI : Inv cfg w) (s : Session) (hs : s ∈ allSessions w) (hnd : SelfNodup cfg s)
+    (p : Pdr) (hp : p ∈ s.pdrs) (es : List (String × String)) (hes : pdrEntries p = some es) (e : String × String) (he : e ∈ es) :
+    (w.tables.tab .pdr).get e.1 = some e.2 := by
+  have hm : e ∈ s.kv cfg .pdr := by
+    show e ∈ pdrKV s.pdrs
+    unfold pdrKV
+    exact List.mem_flatMap.mpr ⟨p, hp, by rw [hes]; exact he⟩
+  exact (hI.img .pdr _ _).mpr ⟨s, hs, (lastVal_of_nodup _ (hnd .pdr) _ _).mpr hm⟩
 
 /-- what `image_after_far_update` asks of the stored FARs is an invariant, not an assumption: along every history every stored FAR carries
 the SEID of its session (`parseFAR` writes it, `UpdateFAR` keeps it) -/
